@@ -107,6 +107,18 @@ func (r *realiser) buildIface(path, key string, t reflect.Type) reflect.Value {
 		return reflect.Zero(t)
 	}
 	if tn, ok := r.s(path + "#type"); ok {
+		// Bad* nodes are the executor's stand-ins for "some expression / statement"
+		// beyond the depth bound; a program that type-checks has none
+		switch tn {
+		case "*go/ast.BadExpr":
+			if t == exprIface {
+				return reflect.ValueOf(&ast.Ident{Name: r.freshName()})
+			}
+		case "*go/ast.BadStmt":
+			if t == stmtIface {
+				return r.defaultIface(t)
+			}
+		}
 		rt, ok := astTypes[tn]
 		if !ok {
 			r.problems = append(r.problems, "unknown node type "+tn)
